@@ -315,6 +315,9 @@ def request_table():
         ("write_coil", lambda: bw.WriteSingleCoilRequest(3, True)),
         ("write_coils", lambda: bw.WriteMultipleCoilsRequest(1, [True, False, True, True, False, True, False, False, True])),
         ("write_register", lambda: rw.WriteSingleRegisterRequest(4, 0x1234)),
+        # the echo of this request from unit 5 sums to 0 mod 256: its ASCII frame carries LRC 00 (the check value at the
+        # end of its range), from unit 17 LRC F4
+        ("write_register_lrc0", lambda: rw.WriteSingleRegisterRequest(4, 0x00F1)),
         ("write_registers", lambda: rw.WriteMultipleRegistersRequest(1, [1, 2, 0xffff])),
         ("mask_write", lambda: rw.MaskWriteRegisterRequest(1, 0x00f2, 0x0025)),
         ("readwrite", lambda: rr.ReadWriteMultipleRegistersRequest(read_address=1, read_count=2, write_address=3, write_registers=[7, 8])),
